@@ -94,29 +94,35 @@ package cppki
 //@ # an update is accepted only as the direct successor of its predecessor: same ISD, same base, serial + 1
 //@ macro succOf(t, p) = ((p).ID.ISD == (t).ID.ISD && (p).ID.Base == (t).ID.Base && (p).ID.Serial + 1 == (t).ID.Serial && (p).NoTrustReset == (t).NoTrustReset && len((t).Votes) >= (p).Quorum)
 //@ func (*TRC).ValidateUpdate
-//@   props C35
+//@   props C35 C32
 //@   requires trc != nil && certsOK(trc) && (predecessor != nil ==> predecessor.Quorum >= 1)
 //@   modifies nothing
 //@   ensures result1 == nil ==> predecessor != nil && succOf(trc, predecessor) && trc.Quorum >= 1
 
+//@ # signature checks are not interpreted; vaOK counts the verifyAll calls that succeeded (every demanded certificate
+//@ # has a valid signer info)
+//@ ghost var vaOK int
 //@ func (*SignedTRC).verifyAll
 //@   trusted
-//@   modifies nothing
+//@   modifies vaOK
+//@   gset vaOK := old(vaOK) + ite(result == nil, 1, 0)
 //@ func (*SignedTRC).verifyBase
 //@   trusted
-//@   modifies nothing
+//@   modifies vaOK
 //@   ensures result == nil ==> s.TRC.Quorum >= 1
 
 //@ func (*SignedTRC).verifyUpdate
-//@   props C35
+//@   props C35 C32
 //@   requires s != nil && certsOK(s.TRC) && (predecessor != nil ==> predecessor.Quorum >= 1)
-//@   modifies nothing
+//@   modifies vaOK
 //@   ensures result == nil ==> predecessor != nil && succOf(&s.TRC, predecessor) && s.TRC.Quorum >= 1
+//@   # C32: accepted only after the signatures of the new voters, the root acknowledgments and the votes all verified
+//@   ensures result == nil ==> vaOK == old(vaOK) + 3
 
 //@ func (*SignedTRC).Verify
 //@   props C35
 //@   requires s != nil && certsOK(s.TRC) && (predecessor != nil ==> predecessor.Quorum >= 1)
-//@   modifies okKey, okPred
+//@   modifies okKey, okPred, vaOK
 //@   gset okKey := ite(result == nil, trcKey(s.TRC), old(okKey))
 //@   gset okPred := ite(result == nil && predecessor != nil, trcKey(*predecessor), old(okPred))
 //@   ensures result == nil ==> ((s.TRC.ID.Base == s.TRC.ID.Serial) == (predecessor == nil))
